@@ -181,4 +181,36 @@ func init() {
 		Find: "\t\tvar fee types.AppAssetIdToFeeCollectedData\n\t\tk.cdc.MustUnmarshal(iter.Value(), &fee)\n", Replace: "\t\tvar fee types.AppAssetIdToFeeCollectedData\n", Rule: "R20.3", Contains: "GetAllNetFeeCollectedData"})
 	addControl(Control{Prop: "C20", Name: "auctionsv2-ignore-counter", File: "x/auctionsV2/genesis.go",
 		Find: "k.SetAuctionID(ctx, genState.AuctionId)", Replace: "k.SetAuctionID(ctx, 0)", Rule: "R20.2", Contains: "GenesisState.AuctionId"})
+
+	// ---- repository-wide rules (generic.go, recordlink.go) ----
+	addControl(Control{Prop: "C01", Name: "esm-restart-credits-initial-collateral", File: "x/auction/keeper/dutch.go",
+		Find: "vaultData.AmountIn = vaultData.AmountIn.Add(dutchAuction.OutflowTokenCurrentAmount.Amount)", Replace: "vaultData.AmountIn = vaultData.AmountIn.Add(dutchAuction.OutflowTokenInitAmount.Amount)",
+		Rule: "R01.8", Contains: "RestartDutchAuctions"})
+	addControl(Control{Prop: "C01", Name: "stable-withdraw-link-check-loosened", File: "x/vault/keeper/msg_server.go",
+		Find: "\tif extendedPairVault.Id != stableVault.ExtendedPairVaultID {", Replace: "\tif extendedPairVault.AppId != stableVault.AppId {", Nth: 2,
+		Rule: "R01.9", Contains: "MsgWithdrawStableMint StableMintVault.ExtendedPairVaultID"})
+	addControl(Control{Prop: "C03", Name: "draw-link-check-dropped", File: "x/vault/keeper/msg_server.go",
+		Find: "\tif extendedPairVault.Id != userVault.ExtendedPairVaultID {\n\t\treturn nil, types.ErrorInvalidExtendedPairMappingData\n\t}\n", Replace: "", Nth: 3,
+		Rule: "R03.8", Contains: "Vault.ExtendedPairVaultID"})
+	addControl(Control{Prop: "C01", Name: "vault-loaded-under-pair-id", File: "x/vault/keeper/msg_server.go",
+		Find: "userVault, found := k.GetVault(ctx, msg.UserVaultId)", Replace: "userVault, found := k.GetVault(ctx, msg.ExtendedPairVaultId)", Nth: 1,
+		Rule: "R01.6", Contains: "GetVault arg 1"})
+	addControl(Control{Prop: "C08", Name: "repay-books-payment-not-principal-change", File: "x/lend/keeper/keeper.go",
+		Find: "k.UpdateBorrowStats(ctx, pair, borrowPos.IsStableBorrow, amtToSubFromBorrowPos, false)", Replace: "k.UpdateBorrowStats(ctx, pair, borrowPos.IsStableBorrow, payment.Amount, false)",
+		Rule: "R08.3", Contains: "RepayAsset UpdateBorrowStats"})
+	addControl(Control{Prop: "C08", Name: "deposit-drop-lend-reload", File: "x/lend/keeper/keeper.go",
+		Find: "\tlendPos, _ = k.GetLend(ctx, lendID)\n", Replace: "", Nth: 1,
+		Rule: "R08.7", Contains: "stale LendAsset"})
+	addControl(Control{Prop: "C13", Name: "surplus-fees-booked-under-bid-asset", File: "x/auction/keeper/surplus.go",
+		Find: "surplusAuction.AssetOutId, surplusAuction.SellToken.Amount)", Replace: "surplusAuction.AssetInId, surplusAuction.SellToken.Amount)", Nth: 1,
+		Rule: "R13.6", Contains: "closeSurplusAuction -> SetNetFeeCollectedData"})
+	addControl(Control{Prop: "C13", Name: "locker-link-check-dropped", File: "x/locker/keeper/msg_server.go",
+		Find: "\tif appMapping.Id != lockerData.AppId {\n\t\treturn nil, types.ErrorAppMappingDoesNotExist\n\t}\n", Replace: "", Nth: 1,
+		Rule: "R13.7", Contains: "Locker.AppId"})
+	addControl(Control{Prop: "C14", Name: "auction-breaker-under-asset-id", File: "x/auction/abci.go",
+		Find: "esmKeeper.GetKillSwitchData(ctx, data.AppId)", Replace: "esmKeeper.GetKillSwitchData(ctx, data.AssetId)",
+		Rule: "R14.7", Contains: "GetKillSwitchData arg 1"})
+	addControl(Control{Prop: "C14", Name: "lend-ratio-price-failure-succeeds", File: "x/lend/keeper/rates.go",
+		Find: "\ttotalOut, err := k.Market.CalcAssetPrice(ctx, assetOut.Id, amountOut)\n\tif err != nil {\n\t\treturn sdk.ZeroDec(), err\n\t}", Replace: "\ttotalOut, err := k.Market.CalcAssetPrice(ctx, assetOut.Id, amountOut)\n\tif err != nil {\n\t\treturn sdk.ZeroDec(), nil\n\t}",
+		Rule: "R14.4", Contains: "failure branch succeeds"})
 }
